@@ -70,3 +70,56 @@ func NearLimitDoc(t *rapid.T, label string) []byte {
 		return []byte(pre + filler(t, n+d-len(pre), false, label+"line") + "\n\nafter\n")
 	}
 }
+
+// pathological shapes, after cmark's pathological_tests.py: a short unit repeated n times (and sometimes a
+// second unit repeated n times after it), which makes delimiter / bracket / raw-HTML scanning do its worst-case
+// amount of work. {n} in a unit stands for the running index.
+var pathoShapes = [][2]string{
+	{"*a **a ", " a** a*"}, {"a_ ", ""}, {"_a ", ""}, {"a]", ""}, {"[a", ""}, {"*a_ ", ""}, {"c* ", ""}, {"[ a_", ""}, {"[ (](", ""}, {"![[]()", ""},
+	{"[", "]"}, {"> ", ""}, {"`", " "}, {"e``{n}", ""}, {"[a](<b", ""}, {"[a](b", ""}, {"<!--", ""}, {"<?", ""}, {"<!A ", ""}, {"<![CDATA[", ""}, {"<a ", ""},
+	{"_a ", "b* "}, {"*a ", "b_ "}, {"**a ", "b~~ "}, {"~~a ", "b** "}, {"[a ", "b) "}, {"![", "*] "}, {"&", ";"}, {"\\", ""}, {"*", ""}, {"_", "*"}, {"- ", "\n"},
+	{"[{n}]: /u\n", "[{n}] "}, {"a[^{n}] ", "\n\n[^{n}]: n"}, {"|", "\n|-"}, {"'", "\""}, {"www.a.b(", ")"}, {"a@b.c_", ""}, {"~", "~~ "},
+}
+
+// PathologicalDoc draws one of the shapes with n = 40..400 repetitions (total size capped at 6 KiB), optionally
+// followed by a short ordinary paragraph with emphasis, a link and a code span, so that what the repeated part
+// leaves behind (budgets, memos, counters) meets ordinary syntax.
+func PathologicalDoc(t *rapid.T, p *Profile, label string) []byte {
+	var ok [][2]string
+	for _, s := range pathoShapes {
+		if p.tokenOK(s[0]) && p.tokenOK(s[1]) {
+			ok = append(ok, s)
+		}
+	}
+	s := ok[rapid.IntRange(0, len(ok)-1).Draw(t, label+"shape")]
+	n := []int{40, 64, 100, 128, 200, 255, 256, 257, 300, 400}[rapid.IntRange(0, 9).Draw(t, label+"n")]
+	for n > 40 && n*(len(s[0])+len(s[1])+2) > 6144 {
+		n /= 2
+	}
+	var sb strings.Builder
+	rep := func(unit string) {
+		if unit == "" {
+			return
+		}
+		for i := 0; i < n; i++ {
+			sb.WriteString(strings.ReplaceAll(unit, "{n}", strconv.Itoa(i)))
+		}
+	}
+	rep(s[0])
+	if rapid.Bool().Draw(t, label+"mid") {
+		sb.WriteString("x")
+	}
+	rep(s[1])
+	if rapid.IntRange(0, 2).Draw(t, label+"tail") != 0 {
+		tail := "\n\nsome *emphasised* and __strong__ words, `code` and a [link](/u)\n"
+		if !p.tokenOK(tail) {
+			tail = "\n\nsome *emphasised* and __strong__ words, `code`\n"
+		}
+		if p.tokenOK(tail) {
+			sb.WriteString(tail)
+		}
+	} else {
+		sb.WriteString("\n")
+	}
+	return []byte(sb.String())
+}
